@@ -9,6 +9,8 @@ KIND.wiring        : the registry that subscribe(queue_type=k) writes is the reg
                      with, together with the k fabric queue (resolved by dataflow through start()).
 DELIVER.exact      : each delivery thread adds the event of the item it took to every element of registry[item's signal
                      name] exactly once and to nothing else; publish() puts exactly one item into each kind's queue.
+ATOMIC.subscribe   : the "already registered?" tests and the registry modification they decide are one critical section
+                     (active objects subscribe from their own threads).
 ALIAS.thread-args  : attributes whose objects were handed to the delivery threads are never rebound outside __init__
                      (a rebind detaches subscribe/publish from what the threads hold).
 Not decided: "exactly once" across delivery-thread interleavings.
@@ -56,6 +58,7 @@ def check(run, model, tier):
                        'compares and iterates, not about sampled queues.')
     run.rule('IDENT.registry', 'membership by identity only; no index/remove/count/in/== with the queue on the registry list')
     run.rule('SUBSCRIBE.paths', 'present -> no modification; absent -> exactly one append; new signal -> [queue]')
+    run.rule('ATOMIC.subscribe', 'check-then-act on the registry is one critical section (lock created in __init__)')
     run.rule('KIND.wiring', 'registry written for kind k == registry given to the k thread, with the k fabric queue')
     run.rule('DELIVER.exact', 'delivery loop: for q in registry[event.signal_name]: q.add(item.event) once; publish: one put per kind')
     run.rule('ALIAS.thread-args', 'attributes handed to threads are not rebound outside __init__')
@@ -134,6 +137,45 @@ def check(run, model, tier):
         v = nn.ast.value
         ok = isinstance(v, ast.List) and len(v.elts) == 1 and isinstance(v.elts[0], ast.Name) and v.elts[0].id == queue_name
         run.inst('SUBSCRIBE.paths', h, 'a new signal starts with [queue]', ok, '' if ok else 'new registry entry is %s' % norm(v), node=nn.ast, obligation=True)
+    # ---- ATOMIC.subscribe: the presence tests and the registry modification form one critical section
+    locks = set()
+    fi = fab.methods.get('__init__')
+    for n in walk_shallow(fi.node):
+        if isinstance(n, ast.Assign) and isinstance(n.value, ast.Call) and norm(n.value.func).split('.')[-1] in ('Lock', 'RLock'):
+            for t in n.targets:
+                d = dotted(t)
+                if d and d.startswith(fi.params[0] + '.'):
+                    locks.add(d.split('.', 1)[1])
+    par = parents(sub.node)
+
+    def lock_with(node):
+        p_ = par.get(node)
+        while p_ is not None and p_ is not sub.node:
+            if isinstance(p_, ast.With):
+                for it_ in p_.items:
+                    d_ = dotted(it_.context_expr)
+                    if d_ and d_.split('.')[-1] in locks:
+                        return p_
+            p_ = par.get(p_)
+        return None
+    helper_calls = [c for c in shallow_calls(sub.node) if isinstance(c.func, ast.Name) and c.func.id == h.name]
+    mods_ast = [m.ast for m in mods]
+    in_helper_lock = all(lock_with(m) is not None for m in mods_ast) and bool(mods_ast)
+    callers_locked = all(lock_with(c) is not None for c in helper_calls) and bool(helper_calls)
+    # inside the helper the tests that decide the modification must be in the same with-block
+    tests_locked = True
+    if in_helper_lock and not callers_locked:
+        for m in mods_ast:
+            wnode = lock_with(m)
+            for t in g.nodes:
+                if t.kind == 'test' and any(guarded_by_edge(g, mm, t, lab) for mm in mods for lab in ('true', 'false')):
+                    if not any(x is t.ast for x in ast.walk(wnode)):
+                        tests_locked = False
+    ok = callers_locked or (in_helper_lock and tests_locked)
+    run.inst('ATOMIC.subscribe', sub, 'presence tests and registry modification in one critical section', ok,
+             '' if ok else ('subscribe() decides "is this signal / this queue registered?" and then modifies the registry with no lock around both; active objects '
+                            'subscribe from their own threads, so two of them subscribing to a signal nobody has yet both see it absent and both store a fresh '
+                            'one-element list - the second store removes the first subscriber'), obligation=True)
     # ---- KIND.wiring
     for kind, reg in sorted(w.registry.items()):
         th = w.threads[reg]
